@@ -818,7 +818,13 @@ func init() {
 		// comparisons inside three families, every goroutine its own order, all results equal to the sequential ones
 		{
 			var hot []*call
-			for _, fi := range []int{rng.Intn(len(tblRanges)), rng.Intn(len(tblRanges)), len(tblRanges) - 1} {
+			hotFams := []int{rng.Intn(len(tblRanges)), len(tblRanges) - 1}
+			for fi, f := range tblRanges { // the GNU families always: their '+' spellings take the scanner's look-ahead branch
+				if strings.HasPrefix(f[0][0], "GPL-") || strings.HasPrefix(f[0][0], "LGPL-") {
+					hotFams = append(hotFams, fi)
+				}
+			}
+			for _, fi := range hotFams {
 				var ids []string
 				for _, gr := range tblRanges[fi] {
 					for _, x := range gr {
